@@ -3,7 +3,7 @@ def plan(tier):
     return {
         "mc": [{"module": "BandMC", "cfg": "BandMC.cfg" if q else "BandMC_thorough.cfg", "timeout": 3000}],
         "families": [{"fam": "banded", "trace": "AlignmentTrace", "nfiles": 4}],
-        "required_obligations": ["exhaustive_small", "alphabet_high_bit_twins", "w_zero", "over_cell_budget_then_custom_with_clips", "over_cell_budget_with_an_empty_sequence", "clone_mid_history", "clone_from_other_aligner", "serde_round_trip", "clips_changed_through_get_mut_scoring", "clip_dominated_sparse_band", "empty_x", "both_empty", "x_shorter_than_k",
+        "required_obligations": ["exhaustive_small", "alphabet_high_bit_twins", "w_zero", "over_cell_budget_then_custom_with_clips", "short_read_in_long_reference_over_budget_matrix", "over_cell_budget_with_an_empty_sequence", "clone_mid_history", "clone_from_other_aligner", "serde_round_trip", "clips_changed_through_get_mut_scoring", "clip_dominated_sparse_band", "empty_x", "both_empty", "x_shorter_than_k",
                                  "explicit_empty_matches", "expanded_matches", "explicit_path",
                                  "band_from_kmer_matches", "no_kmer_match_full_band", "over_cell_budget", "thin_band_in_huge_matrix"],
         "rule": "one run = one banded Aligner (k,w) reused across entry points and sizes; exhaustive: all x,y over "
